@@ -163,4 +163,144 @@ example : (run {} [.create true, .create true, .create false, .create true, .fin
       .restart 1, .active, .finish 0, .active]).2
     = [[], [], [], [], [], [0, 3], [], [0, 3, 1], [], [3, 1]] := by decide
 
+/-! ## Retention at every moment of a history -/
+
+
+def finishes : List Op → Nat
+  | [] => 0
+  | .finish _ :: ops => finishes ops + 1
+  | _ :: ops => finishes ops
+
+def noPrune : List Op → Bool
+  | [] => true
+  | .active :: _ => false
+  | .autoclose :: _ => false
+  | _ :: ops => noPrune ops
+
+theorem countP_or_eq_le (l : List Nat) (p : Nat → Bool) (w : Nat) (h : l.Nodup) :
+    l.countP (fun x => p x || x == w) ≤ l.countP p + 1 := by
+  induction l with
+  | nil => simp
+  | cons a l ih =>
+    have hn := List.nodup_cons.mp h
+    by_cases haw : a = w
+    · subst haw
+      have : l.countP (fun x => p x || x == a) = l.countP p := by
+        apply List.countP_congr
+        intro x hx
+        have : x ≠ a := fun e => hn.1 (e ▸ hx)
+        simp [this]
+      simp [List.countP_cons, this]
+      all_goals try (split <;> omega)
+    · have := ih hn.2
+      simp [List.countP_cons, haw]
+      all_goals try (split <;> omega)
+      all_goals try omega
+
+theorem dead_step (s : St) (op : Op) (h : Inv s) (hop : noPrune [op] = true) :
+    dead (step s op).1 ≤ dead s + finishes [op] := by
+  obtain ⟨h1, h2, h3, h4, h5⟩ := h
+  cases op with
+  | create run =>
+    simp only [step, finishes]
+    split
+    · have hn : s.next ∉ s.reg := fun hh => by have := h4 _ hh; omega
+      simp only [dead, register, hn, if_false]
+      rw [List.countP_append]
+      have : List.countP (fun x => decide (x ∉ s.alive ++ [s.next])) s.reg
+          = List.countP (fun x => decide (x ∉ s.alive)) s.reg := by
+        apply List.countP_congr
+        intro x hx
+        have : x ≠ s.next := fun e => hn (e ▸ hx)
+        simp [this]
+      rw [this]; simp
+    · simp [dead]
+  | finish w =>
+    simp only [step, finishes, dead]
+    refine Nat.le_trans (Nat.le_of_eq (List.countP_congr ?_))
+      (countP_or_eq_le s.reg (fun x => decide (x ∉ s.alive)) w h1)
+    intro x hx
+    by_cases e : x = w <;> simp [e]
+  | restart w =>
+    simp only [step, finishes]
+    split
+    · simp only [dead, Nat.add_zero]
+      by_cases hw : w ∈ s.reg
+      · simp only [register, hw, if_true]
+        apply List.countP_mono_left
+        intro x hx
+        simp
+        intro hh hne
+        rcases hh with hh | hh
+        · exact hh
+        · exact absurd hh hne
+      · simp only [register, hw, if_false]
+        rw [List.countP_append]
+        have : List.countP (fun x => decide (x ∉ s.alive.filter (· ≠ w) ++ [w])) s.reg
+            = List.countP (fun x => decide (x ∉ s.alive)) s.reg := by
+          apply List.countP_congr
+          intro x hx
+          have : x ≠ w := fun e => hw (e ▸ hx)
+          simp [this]
+        rw [this]; simp
+    · simp
+  | active => simp [noPrune] at hop
+  | autoclose => simp [noPrune] at hop
+
+
+theorem noPrune_cons {op : Op} {ops : List Op} (h : noPrune (op :: ops) = true) :
+    noPrune [op] = true ∧ noPrune ops = true := by
+  cases op <;> simp_all [noPrune]
+
+theorem finishes_cons (op : Op) (ops : List Op) : finishes (op :: ops) = finishes [op] + finishes ops := by
+  cases op <;> simp [finishes] <;> omega
+
+theorem dead_run (s : St) (ops : List Op) (h : Inv s) (hn : noPrune ops = true) :
+    dead (run s ops).1 ≤ dead s + finishes ops := by
+  induction ops generalizing s with
+  | nil => simp [run, finishes]
+  | cons op ops ih =>
+    obtain ⟨h1, h2⟩ := noPrune_cons hn
+    have a := dead_step s op h h1
+    have b := ih (step s op).1 (inv_step s op h) h2
+    rw [finishes_cons]
+    simp only [run]
+    omega
+
+/-- Right after `active_children()` the registry retains no dead worker at all. -/
+theorem dead_active (s : St) : dead (step s .active).1 = 0 := by
+  simp only [step, dead]
+  apply List.countP_eq_zero.mpr
+  intro x hx
+  have := (List.mem_filter.mp hx).2
+  simp at this
+  simp [this]
+
+/-- **C19 retention over a whole history** ("a long-lived program ... retains neither them nor
+    their results"): at *every* moment of *every* history the registered workers that are no
+    longer alive number at most the completions (return, raise, terminate, kill) that happened
+    since the last `active_children()` call - whatever was created, finished or restarted before
+    that call (`ops`) and whatever is created or restarted since (`since`). Dead workers therefore
+    never accumulate: each `active_children()` call brings the count back to zero. -/
+theorem C19_retention_history (ops since : List Op) (hn : noPrune since = true) :
+    dead (run (step (final ops) .active).1 since).1 ≤ finishes since := by
+  have h := dead_run (step (final ops) .active).1 since (inv_step _ _ (C19_inv ops)) hn
+  rw [dead_active] at h
+  omega
+
+/-- A restart never adds to what the registry retains of the dead (the restarted worker is
+    registered once, and it is alive), and neither does a creation. -/
+theorem C19_restart_create_retain_nothing (ops : List Op) (op : Op)
+    (hop : (∃ w, op = .restart w) ∨ (∃ r, op = .create r)) :
+    dead (step (final ops) op).1 ≤ dead (final ops) := by
+  have h := C19_inv ops
+  rcases hop with ⟨w, rfl⟩ | ⟨r, rfl⟩
+  · simpa [finishes] using dead_step (final ops) (.restart w) h (by simp [noPrune])
+  · simpa [finishes] using dead_step (final ops) (.create r) h (by simp [noPrune])
+
+/-- Non-vacuity: prune, then three completions and two creations - the registry holds the three
+    dead ones (the bound is reached), and the next call drops them. -/
+example : dead (run (step (final [.create true, .create true, .create true, .create true, .finish 0])
+      .active).1 [.finish 1, .create true, .finish 2, .finish 4, .create true]).1 = 3 := by decide
+
 end PwVerif.C19
